@@ -182,6 +182,7 @@ type LDOpts struct {
 	KeyRot      int    `json:"key_rot,omitempty"`     // rotate the sorted key list of every object by this much
 	Unwrap1     bool   `json:"unwrap1,omitempty"`     // single value instead of a 1-element array
 	TypeString  bool   `json:"type_string,omitempty"` // @type as string when there is one class
+	TypeRev     bool   `json:"type_rev,omitempty"`    // list the classes of a node in reverse order
 	NativeLit   bool   `json:"native_lit,omitempty"`  // x instead of {"@value":x}
 	DupValues   bool   `json:"dup_values,omitempty"`  // repeat the first value of multi-valued properties
 	SplitNodes  bool   `json:"split_nodes,omitempty"` // emit nodes with >1 property as two entries with the same @id
@@ -305,7 +306,11 @@ func (g *Graph) JSONLD(o LDOpts) string {
 				} else {
 					ts := make([]any, len(n.Types))
 					for k, t := range n.Types {
-						ts[k] = iri(t)
+						if o.TypeRev {
+							ts[len(n.Types)-1-k] = iri(t)
+						} else {
+							ts[k] = iri(t)
+						}
 					}
 					m.set("@type", ts)
 				}
